@@ -45,6 +45,11 @@ const (
 )
 
 func (f *FIXUTCTimestamp) Read(bytes []byte) (err error) {
+	// time.Parse takes a comma as well as a period before the fractional seconds, FIX only a period.
+	if len(bytes) > 17 && bytes[17] != '.' {
+		return errors.New("Invalid Value for Timestamp: " + string(bytes))
+	}
+
 	switch len(bytes) {
 	// Seconds.
 	case 17:
